@@ -30,6 +30,7 @@ SPACE = {
 BOUNDS = {"quick": {"depth": 3}, "thorough": {"depth": 4}}  # see alphabets()
 ASSUMPTIONS = [
     "state hidden from the snapshot (closures, C-level caches) is only caught through clause (ii): results must equal first-call results",
+    "process-wide options of xarray / numpy / dask are part of the state: an operation that changes them changes every later result in the process",
     "set_metrics is a mutator by design; it is included only in forms that must leave the registry unchanged (idempotent overwrite, refused registration)",
 ]
 
@@ -99,6 +100,40 @@ def module_state():
 
     out.append(("cls", snap(list(_GridUFuncSignature._REPLACEMENT_DUMMY_INDEX_NAMES))))
     return tuple(out)
+
+
+def global_options():
+    """process-wide settings of the libraries xgcm builds on; xgcm has no business changing them"""
+    import dask
+
+    out = {"numpy.errstate": repr(sorted(np.geterr().items())), "numpy.printoptions": repr(sorted((k, repr(v)) for k, v in np.get_printoptions().items()))}
+    try:
+        out["xarray.options"] = repr(sorted((k, repr(v)) for k, v in xr.get_options().items()))
+    except Exception:
+        pass
+    try:
+        out["dask.config"] = str(h64(repr(sorted((k, repr(v)) for k, v in dask.config.config.items()))))
+    except Exception:
+        pass
+    return out
+
+
+_BASE_OPTIONS = global_options()
+
+
+def restore_options():
+    import ast
+
+    try:
+        xr.set_options(**dict((k, ast.literal_eval(v)) for k, v in ast.literal_eval(_BASE_OPTIONS["xarray.options"])))
+    except Exception:
+        pass
+    np.seterr(**dict(ast.literal_eval(_BASE_OPTIONS["numpy.errstate"])))
+
+
+def options_changed():
+    now = global_options()
+    return sorted(k for k in _BASE_OPTIONS if now.get(k) != _BASE_OPTIONS[k])
 
 
 def snapshot(ns):
@@ -374,6 +409,8 @@ def first_results(scn):
         for name in ops:
             ns, ops2 = SCN[scn]()
             out[name] = canon_result(run_op(ns, ops2[name]))
+            if options_changed():
+                restore_options()  # reported when the operation occurs in a sequence; keep first results comparable
         _FIRST[scn] = out
     return _FIRST[scn]
 
@@ -389,6 +426,12 @@ def run_seq(rec, scn, seq):
     for i, name in enumerate(seq):
         res = run_op(ns, ops[name])
         rec.transitions += 1
+        ch = options_changed()
+        if ch:
+            restore_options()
+            rec.violation("global-state", f"{scn}:{name}:changes-process-wide-options:{'+'.join(ch)}", dict(case, at=i),
+                          "library options unchanged", "changed: " + ", ".join(ch), cost=i)
+            return
         s1 = snapshot(ns)
         if s1 != s0:
             changed = sorted(k for k in s0 if s0[k] != s1.get(k))
